@@ -16,6 +16,8 @@
 (*   Kx          Diffie-Hellman level: shared secrets, session keys,       *)
 (*               seeded derivations                                C05 C13 *)
 (*   Sign        Ed25519 strict-verification decision table            C06 *)
+(*   SignAlgebra the group Z_L x Z_8 behind it: uniqueness of S, complete  *)
+(*               classification of equation-satisfying forgeries       C06 *)
 (*   Rng         freshness as a history property (trace spec)          C11 *)
 (*   Codec       field/carrier/count grammar of encodings              C16 *)
 (*   Matrix      build configurations x backends x containers          C18 *)
